@@ -452,3 +452,14 @@ def dead_branch_mid():
 
 S2_UNARY["dead_branch"] = dead_branch
 S2_UNARY["dead_branch_mid"] = dead_branch_mid
+
+
+def local_root_mutation():
+    """((0,1)3,2)4 on [0,5); (0,1)3 with 2 isolated on [5,10): node 3 has a parent edge on the
+    left and is a root on the right, where it carries a mutation (site 7.5)."""
+    return _ts(10, [(1, 0)] * 3 + [(0, 1), (0, 2)],
+               [(0, 10, 3, 0), (0, 10, 3, 1), (0, 5, 4, 3), (0, 5, 4, 2)],
+               [1, 3, 6, 7.5], [(0, 0), (1, 3), (2, 1), (3, 3)])
+
+
+S2["local_root_mutation"] = local_root_mutation
